@@ -156,6 +156,34 @@ def chords(ctx):
     ep = [(g, e, rn) for (g, e, rn) in iface.pieces(enc.node) if not (isinstance(e, ast.Constant))]
     dp = [(g, d, rn) for (g, d, rn) in iface.pieces(dec.node) if not isinstance(d, ast.Name)]
     ctx.require(len(ep) == nq and len(dp) == nq, '%s: expected %d encode/decode pieces, found %d/%d' % (cname, nq, len(ep), len(dp)))
+
+    def _strip(g):
+      out = []
+      for t, pol in g:
+        while isinstance(t, ast.UnaryOp) and isinstance(t.op, ast.Not):
+          t, pol = t.operand, not pol
+        out.append((t, pol))
+      return out
+    ep = [(_strip(g), e, rn) for (g, e, rn) in ep]
+    dp = [(_strip(g), d, rn) for (g, d, rn) in dp]
+    # pieces are paired by the block they belong to, not by where they stand: an encode piece  root + 12k + 1,
+    # a decode piece whose table index is  index - 12k - 1
+    def _const_part(x):
+      try:
+        p_ = nf.Builder(dict(env0)).rat(x).poly()
+        c_ = p_.t.get((), 0) if p_ is not None else None
+        return c_ if c_ is not None and getattr(c_, 'denominator', 1) == 1 else None
+      except nf.NFError:
+        return None
+
+    def _dec_index(d):
+      tab_ = d.left if isinstance(d, ast.BinOp) and isinstance(d.op, ast.Add) and isinstance(d.right, ast.Constant) else d
+      return tab_.slice if isinstance(tab_, ast.Subscript) else None
+    ek = [_const_part(e) for (_g, e, _r) in ep]
+    dk = [(-_const_part(_dec_index(d)) if _dec_index(d) is not None and _const_part(_dec_index(d)) is not None else None) for (_g, d, _r) in dp]
+    if None not in ek and None not in dk and len(set(ek)) == nq and len(set(dk)) == nq:
+      ep = [x for _k, x in sorted(zip(ek, ep), key=lambda kv: kv[0])]
+      dp = [x for _k, x in sorted(zip(dk, dp), key=lambda kv: kv[0])]
     root = None
     for k, ((g, e, rn), (g2, d, rn2)) in enumerate(zip(ep, dp)):
       # quality of the encode piece
